@@ -177,11 +177,14 @@ def measure_2site(bra, O, P, ket, bonds='<') -> dict[tuple[int, int], float] | f
     return_float = False
     if isinstance(bonds, str):
         pairs = _parse_2site_bonds(bonds, ket.N)
-    elif isinstance(bonds[0], int):  # single bond
+    elif len(bonds) > 0 and isinstance(bonds[0], int):  # single bond
         pairs = [bonds]
         return_float = True
     else:
         pairs = bonds
+
+    if (isinstance(O, dict) and not O) or (isinstance(P, dict) and not P):
+        return {}  # no operators to measure
 
     if isinstance(O, dict):
         O0 = next(iter(O.values()))
